@@ -713,6 +713,23 @@ fn sized_content(r: &mut Rng, to: Fmt, target_size: usize) -> (Fmt, Vec<u8>) {
 	cfg.max_len = 4;
 	let mut docs: Vec<Vec<u8>> = vec![];
 	let mut total = 0;
+	if r.chance(1, 3) {
+		// Streams of tiny documents: the output is mostly separators (newlines, '---'), so the
+		// write that finds the 8 KiB stdout buffer full is often a separator, not document text.
+		let tiny: &[&str] = match f {
+			Fmt::Json => &["0", "[]", "{}", "\"a\"", "true", "[1]", "12345", "{\"k\":1}"],
+			Fmt::Yaml => &["0", "[]", "{}", "a", "true", "[1]", "12345", "k: 1"],
+			_ => &[],
+		};
+		if !tiny.is_empty() || f == Fmt::Msgpack {
+			while total < target_size {
+				let d: Vec<u8> = if f == Fmt::Msgpack { r.pick(&[vec![0u8], vec![0x90], vec![0x80], vec![0xa1, b'a'], vec![0xc3], vec![0x91, 1]]).clone() } else { r.pick(tiny).as_bytes().to_vec() };
+				total += d.len() + 1;
+				docs.push(d);
+			}
+			return (f, gen::build_stream(&docs, f, r, false).bytes);
+		}
+	}
 	let pool: Vec<Vec<u8>> = (0..8)
 		.filter_map(|_| {
 			let v = gen::gen_doc(r, &cfg);
